@@ -676,11 +676,28 @@ struct GramEngine {
 // ---- C09: exhaustively generated repetitive inputs (many repeated fragments, hundreds to thousands of tokens)
 struct RepSpec { int cur; std::vector<std::string> frags; std::string join; std::vector<std::string> bad; };
 static std::vector<int> toks_of(const std::string &s) { std::vector<int> v; for (char c : s) v.push_back((unsigned char) c); return v; }
+// structural hash of the returned graph (used instead of Den strings on long inputs)
+static unsigned long tree_hash(const yaep_tree_node *n, std::map<const yaep_tree_node *, unsigned long> &memo, int ntoks, int depth = 0) {
+  if (!n) return 7;
+  auto it = memo.find(n); if (it != memo.end()) return it->second;
+  if (depth > 100000) return 13;
+  unsigned long h = 1469598103934665603ULL;
+  auto mix = [&](unsigned long v) { h = (h ^ v) * 1099511628211ULL; };
+  mix((unsigned long) n->type);
+  switch (n->type) {
+  case YAEP_TERM: mix((unsigned long) n->val.term.code); mix((unsigned long) (attr_to_idx(n->val.term.attr, ntoks) + 5)); break;
+  case YAEP_ANODE: { for (const char *c = n->val.anode.name; *c; c++) mix((unsigned char) *c); mix((unsigned long) n->val.anode.cost); for (yaep_tree_node **c = n->val.anode.children; *c; c++) mix(tree_hash(*c, memo, ntoks, depth + 1)); break; }
+  case YAEP_ALT: { unsigned long sum = 0; for (const yaep_tree_node *a = n; a && a->type == YAEP_ALT; a = a->val.alt.next) sum += tree_hash(a->val.alt.node, memo, ntoks, depth + 1); mix(sum); break; }
+  default: break;
+  }
+  return memo[n] = h;
+}
 static std::string obs_digest(const ParseObs &o, int ntoks, bool with_tree, bool loose = false) {
   std::ostringstream os;
   os << "rc=" << o.rc << " amb=" << o.amb << " root=" << (o.root ? 1 : 0);
   for (auto &e : o.errs) os << " err(" << e.err << "@" << e.err_a << "," << e.ign << "," << e.rec << ")";
-  if (with_tree && o.rc == 0 && o.root) { DenRes d = denote(o.root, ntoks, true); size_t h = 1469598103934665603ULL; for (auto &t0 : d.trees) { std::string t = loose ? strip_idx(t0) : t0; for (char c : t) h = (h ^ (unsigned char) c) * 1099511628211ULL; } os << " trees=" << d.trees.size() << "#" << h; for (auto &s : d.shape) os << " shape:" << s; if (d.capped) os << " capped"; }
+  if (with_tree && o.rc == 0 && o.root && ntoks > 400) { std::map<const yaep_tree_node *, unsigned long> memo; os << " treehash=" << tree_hash(o.root, memo, loose ? 0 : ntoks) << " nodes=" << memo.size(); }
+  else if (with_tree && o.rc == 0 && o.root) { DenRes d = denote(o.root, ntoks, true); size_t h = 1469598103934665603ULL; for (auto &t0 : d.trees) { std::string t = loose ? strip_idx(t0) : t0; for (char c : t) h = (h ^ (unsigned char) c) * 1099511628211ULL; } os << " trees=" << d.trees.size() << "#" << h; for (auto &s : d.shape) os << " shape:" << s; if (d.capped) os << " capped"; }
   return os.str();
 }
 static void run_repetitive(int shard, int nshards, int r, int target_len, const std::set<std::string> &known, Report &rep) {
@@ -694,6 +711,39 @@ static void run_repetitive(int shard, int nshards, int r, int target_len, const 
     {27, {"k(xy)", "k[xy]", "k(xy)k(xy)"}, "", {"k(xy]", "k[xy)", ""}},
   };
   long idx = 0;
+  // the 200-rule ANSI C grammar of the test suite on test.i (description and token codes are produced at
+  // build time from /repo/test, see bin/vcheck gen_ansic): whole file and its first half / quarter
+  if (getenv("VERIF_ANSIC_DESC") && getenv("VERIF_ANSIC_TOKS") && shard == 0) {
+    std::string desc; { FILE *f = fopen(getenv("VERIF_ANSIC_DESC"), "r"); if (f) { char b[65536]; size_t k; while ((k = fread(b, 1, sizeof b, f)) > 0) desc.append(b, k); fclose(f); } }
+    std::vector<int> all; { FILE *f = fopen(getenv("VERIF_ANSIC_TOKS"), "r"); int c; if (f) { while (fscanf(f, "%d", &c) == 1) all.push_back(c); fclose(f); } }
+    if (!desc.empty() && all.size() > 1000) {
+      for (size_t cut : {all.size() / 4, all.size() / 2, all.size()}) {
+        std::vector<int> in(all.begin(), all.begin() + cut);
+        std::string first, firstfl;
+        for (int la : {0, 1, 2}) {
+          void *y = vy_create();
+          if (define_by_text(y, desc, 1) != 0) machinery_error(std::string("ANSI C description of the test suite rejected: ") + vy_error_message(y));
+          Flags f; f.la = la; f.one = 1; f.rec = 1; apply_flags(y, f);
+          g_trk.reset();
+          long mm0 = yaep_verif_cache_mismatches, hh0 = yaep_verif_cache_hits;
+          yaep_verif_cache_check = 1;
+          ParseObs o = run_parse(y, in, 0);
+          yaep_verif_cache_check = 0;
+          rep.add("parses"); rep.add("inputs"); rep.add("c09_long_tokens", (long) in.size()); rep.add("c09_ansic_parses");
+          if (o.rc == 0 && o.errs.empty() && o.root) rep.add("c09_ansic_clean_parses");
+          if (cut == all.size() && (o.rc != 0 || !o.errs.empty())) machinery_error("test.i is not parsed cleanly by the test suite's ANSI C grammar: rc=" + std::to_string(o.rc) + " errors=" + std::to_string(o.errs.size()));
+          rep.add("c09_cache_hits_checked", yaep_verif_cache_hits - hh0);
+          std::string addr = "ansic la=" + std::to_string(la) + " tokens=" + std::to_string(in.size());
+          auto V = [&](const std::string &kind, const std::string &detail) { rep.viol("{\"property\":\"C09\",\"kind\":" + jstr(kind) + ",\"engine\":\"gram\",\"case\":" + jstr(addr) + ",\"grammar\":\"ANSI C grammar of test/C/test41.c\",\"tokens\":\"test/test.i\",\"detail\":" + jstr(detail) + "}"); };
+          if (yaep_verif_cache_mismatches != mm0) V("cached-set-differs", std::to_string(yaep_verif_cache_mismatches - mm0) + " of " + std::to_string(yaep_verif_cache_hits - hh0) + " cache hits gave a set different from the recomputed one");
+          std::string dg = obs_digest(o, (int) in.size(), true);
+          if (first.empty()) { first = dg; firstfl = addr; } else { rep.add("c09_comparisons"); if (dg != first) V("differs-across-levels", "[" + dg.substr(0, 300) + "] vs [" + first.substr(0, 300) + "] of " + firstfl); }
+          vy_free(y);
+        }
+      }
+      rep.sample("{\"grammar\":\"ANSI C (test41.c)\",\"input\":\"test.i\",\"tokens\":" + std::to_string(all.size()) + "}");
+    }
+  }
   for (auto &sp : specs) {
     const Gram &g = cur[sp.cur];
     // all concatenations of 1..r fragments (with joiner), optionally one bad fragment inserted at each position
